@@ -82,23 +82,6 @@ def unchanged_overflow(kv, skv, nobs, ref):
     return same() or near
 
 
-def unchanged_midpoint(p, xs, nobs, kv):
-    """Known finding 'small-sample-midpoint-subnormal': with fewer than five observations and n*p a whole number k the
-    unchanged code returns 0.5*s[k-1] + 0.5*s[k]; halving an odd multiple of the smallest subnormal is inexact.  True iff
-    the observed quantile() is bit-for-bit that expression for the right pair and at least one halving was inexact."""
-    if xs is None or nobs < 2 or nobs > 4:
-        return False
-    s = sorted(xs[:nobs])
-    t = Fraction(p) * nobs
-    if t.denominator != 1 or not (1 <= t <= nobs - 1):
-        return False
-    a, b = s[int(t) - 1], s[int(t)]
-    qv = val(kv['quantile'])
-    if not isinstance(qv, float) or not _same_float(qv, 0.5 * a + 0.5 * b):
-        return False
-    return Fraction(0.5 * a) != Fraction(a) / 2 or Fraction(0.5 * b) != Fraction(b) / 2
-
-
 class Judge:
     def __init__(self, variant):
         self.r5 = Result()    # C05
@@ -112,17 +95,14 @@ class Judge:
         r.count('evaluations')
         r.count('invariant_states')
 
-        # The two recorded known findings (known_findings.txt) are identified by their mechanism, not only by the class of
-        # input: the suffix is attached only if the observed value is bit-for-bit what the unchanged code's arithmetic gives
-        # (see unchanged_overflow / unchanged_midpoint).  Any other violation - also on such inputs - keeps a plain signature.
+        # The recorded known finding (known_findings.txt) is identified by its mechanism, not only by the class of input: the
+        # suffix is attached only if the observed value is bit-for-bit what the unchanged code's arithmetic gives (see
+        # unchanged_overflow).  Any other violation - also on such inputs - keeps a plain signature.
         cls = ''
         if nobs > 0:
             if Fraction(mx) - Fraction(mn) > F64_MAX:
                 if unchanged_overflow(kv, skv, nobs, ref):
                     cls = ':range-overflows-f64'
-            elif nobs < 5 and 0 < max(abs(mn), abs(mx)) < 2.0 ** -1021:
-                if unchanged_midpoint(p, xs, nobs, kv):
-                    cls = ':small-sample-midpoint-subnormal'
 
         def viol(sig, msg):
             r.violation('C15', 'Quantile:%s%s' % (sig, cls if sig.startswith(('quantile:out-of-range', 'quantile:nan', 'state:')) else ''),
